@@ -77,6 +77,10 @@ cpdef Dense reshape_dense(Dense matrix, idxint n_rows_out, idxint n_cols_out):
 
 cpdef Dia reshape_dia(Dia matrix, idxint n_rows_out, idxint n_cols_out):
     _reshape_check_input(matrix, n_rows_out, n_cols_out)
+    if n_rows_out == matrix.shape[0] and n_cols_out == matrix.shape[1]:
+        # scipy returns the matrix itself: the result must not share its
+        # buffers with the input.
+        return matrix.copy()
     # Once reshaped, diagonals are no longer ligned up.
     return Dia(
         matrix.as_scipy().reshape((n_rows_out, n_cols_out)).todia(), copy=False
